@@ -354,6 +354,12 @@ def c_table_elements(case, ctx):
     if a.ndim > 4 or case["mode"] != 0:
         raise HarnessError("generator: clause (3) is about <=4-D arrays in table mode")
     nd = 3 if case["nd"] is None else case["nd"]
+    if case.get("prelude_large"):
+        # display history: something with very large entries was shown with the same number of decimals first.
+        # What a call shows is a function of its own arguments, not of what was displayed before.
+        ctx.label("a large-magnitude array was displayed first")
+        kw = {} if case["nd"] is None else {"nd": case["nd"]}
+        sut(lib()["disp"], np.array([2.5e8, 0.125, -7.0e6]), "PRELUDE", noprint=True, **kw)
     _, ret, _ = call(case)
     if not isinstance(ret, str):
         raise Violation("disp returned %s, not str" % type(ret).__name__)
@@ -659,7 +665,8 @@ def faithful_requests(draw, mode):
     else:
         obj = draw(arrays(2, 2, True, nd=3 if nd is None else nd))
     return {"obj": obj, "title": draw(titles()), "nd": nd, "mode": mode,
-            "pdims": draw(st.sampled_from([None, None, True, False])), "noprint": draw(st.booleans())}
+            "pdims": draw(st.sampled_from([None, None, True, False])), "noprint": draw(st.booleans()),
+            "prelude_large": draw(st.booleans())}
 
 
 @st.composite
